@@ -1,0 +1,9 @@
+//go:build !verif
+
+package core
+
+// No-ops unless built with the `verif` build tag.  See verif_route_on.go.
+
+func verifRouteChunk(filename, uniquifier string, chunk *Chunk)     {}
+func verifRouteFork(filename, uniquifier, state string, fork *Fork) {}
+func verifUnrouted(filename string)                                 {}
